@@ -93,6 +93,12 @@ TABLE = [
      "styles, partial intervals, TextGrid output) and the audio generators are run on generated inputs and their byte/file "
      "outputs are compared with a sample-level model.",
      _NOTE, "DESIGN.md section 3 C17"),
+    ("C18", "Hypothesis generated recordings/targets/steps and splice scenarios judged by validity predicates on the returned values",
+     "findNearestZeroCrossing is run on six kinds of generated recordings with on/off-grid targets and integral/non-integral "
+     "steps: a returned time must be in range, on the sample grid for an on-grid target and a genuine crossing; only the two "
+     "documented errors may be raised. tgBoundariesToZeroCrossings and audioSplice are checked for kept labels/counts/order, the "
+     "single new interval and audio/text durations agreeing within one sample.",
+     _NOTE, "DESIGN.md section 3 C18"),
 ]
 
 PENDING = {}
